@@ -19,7 +19,7 @@ def gen_value(r, depth, shared):
         return r.choice(shared)
     if depth <= 0 or k < 0.5:
         return r.choice(["0", "1", "-1", "7", "12345678901234567890", "1/2", "-3/4", "1.5", "0.0", "#t", "#f", "#\\a", "#\\z",
-                         '"a"', '"b"', '""', "'a", "'b", "(list)", '"hello"', "100", "void"])
+                         '"a"', '"b"', '""', "'a", "'b", "(list)", '"hello"', "100", "void", "(bytes 1 2 3)", "(bytes)", "(bytes 7)"])
     c = r.random()
     n = r.choice([0, 1, 2, 3])
     items = [gen_value(r, depth - 1, shared) for _ in range(n)]
@@ -43,7 +43,7 @@ def gen_value(r, depth, shared):
 def perturb(r, text):
     """A textual variant that denotes a *different* value most of the time."""
     reps = [("1", "2"), ("'a", "'b"), ('"a"', '"b"'), ("0", "0.0"), ("#t", "#f"), ("7", "8"), ("(list)", "(list 0)"), ("1/2", "1/3"),
-            ("#\\a", "#\\b"), ("-1", "1")]
+            ("#\\a", "#\\b"), ("-1", "1"), ("(bytes 1 2 3)", "(bytes 1 2 4)"), ("(bytes 7)", "(bytes 7 0)")]
     r.shuffle(reps)
     for a, b in reps:
         if a in text:
@@ -70,7 +70,8 @@ def equality_program(r):
         b = perturb(r, a)
     c = r.choice([a, b, perturb(r, b)])
     lines += ["(define a %s)" % a, "(define b %s)" % b, "(define c %s)" % c,
-              "(verif-emit (list (equal? a b) (equal? b a) (equal? a a) (equal? b c) (equal? a c)))"]
+              "(verif-emit (list (equal? a b) (equal? b a) (equal? a a) (equal? b c) (equal? a c)))",
+              "(verif-emit (list (if (member a (list c b)) #t #f) (if (member b (list 0 a)) #t #f)))"]
     if "hashset" not in a + b and "(hash " not in a + b and "vector" not in a + b and "1.5" not in a + b and "0.0" not in a + b and "void" not in a + b and "vf-pt" not in a + b:
         # immutable, hashable keys only
         lines.append("(verif-emit (list (hash-contains? (hash a 1) b) (hashset-contains? (hashset a) b) (hash-try-get (hash a 'v) b)))")
@@ -92,7 +93,7 @@ def dag_program(r, depth):
 
 
 def seq_program(r):
-    kind = r.choice(["list", "vector", "hash", "hashset", "string"])
+    kind = r.choice(["list", "vector", "hash", "hashset", "string", "bytes", "vector"])
     n = r.randint(3, 12)
     lines = []
     em = lambda e: lines.append("(verif-emit %s)" % e)
@@ -125,9 +126,23 @@ def seq_program(r):
                 em("l")
     elif kind == "vector":
         lines.append("(define v (vector %s))" % " ".join(str(r.randint(0, 5)) for _ in range(r.randint(1, 5))))
+        lines.append("(define w (vector %s))" % " ".join(str(r.randint(10, 15)) for _ in range(r.randint(0, 6))))
         for _ in range(n):
-            k = r.randrange(5)
+            k = r.randrange(9)
             x = r.randint(0, 6)
+            if k >= 5:
+                dest, src = r.choice([("v", "v"), ("v", "v"), ("v", "w"), ("w", "v"), ("w", "w"), ("v", "(immutable-vector 7 8 9)")])
+                if k == 5:
+                    a1, a2 = r.randint(0, 5), r.randint(0, 6)
+                    rng = r.choice(["", " %d" % a1, " %d %d" % (min(a1, a2), max(a1, a2)), " %d %d" % (a1, a2)])
+                    lines.append("(with-handler (lambda (e) (verif-emit 'err)) (vector-copy! %s %d %s%s))" % (dest, r.randint(0, 5), src, rng))
+                elif k == 6:
+                    a1, a2 = r.randint(0, 5), r.randint(0, 6)
+                    rng = r.choice(["", " %d" % a1, " %d %d" % (min(a1, a2), max(a1, a2))])
+                    lines.append("(with-handler (lambda (e) (verif-emit 'err)) (vector-fill! %s %d%s))" % (dest, x, rng))
+                else:
+                    em("(list v w)")
+                continue
             if k == 0:
                 lines.append("(with-handler (lambda (e) (verif-emit 'err)) (vector-set! v %d %d))" % (r.choice([0, 1, x, 9]), x))
             elif k == 1:
@@ -173,6 +188,31 @@ def seq_program(r):
                 em("(hashset-length s)")
             if r.random() < 0.4:
                 em("s")
+    elif kind == "bytes":
+        lines.append("(define b (bytes %s))" % " ".join(str(r.randint(0, 255)) for _ in range(r.randint(0, 5))))
+        for _ in range(n):
+            k = r.randrange(9)
+            x = r.choice([0, 1, 255, 256, -1, r.randint(0, 255)])
+            i = r.choice([0, 1, 2, 5, 9, -1])
+            if k == 0:
+                lines.append("(with-handler (lambda (e) (verif-emit 'err)) (bytes-set! b %d %d))" % (i, x))
+            elif k == 1:
+                em("(with-handler (lambda (e) 'err) (bytes-ref b %d))" % i)
+            elif k == 2:
+                lines.append("(with-handler (lambda (e) (verif-emit 'err)) (bytes-push! b %d))" % x)
+            elif k == 3:
+                em("(bytes-length b)")
+            elif k == 4:
+                em("(bytes->list b)")
+            elif k == 5:
+                em("(bytes-append b (bytes 9) b)")
+            elif k == 6:
+                a1, a2 = r.randint(0, 4), r.randint(0, 7)
+                em("(with-handler (lambda (e) 'err) (bytes-copy b%s))" % r.choice(["", " %d" % a1, " %d %d" % (a1, a2)]))
+            elif k == 7:
+                em("(list (equal? b (bytes-copy b)) (equal? (list b) (list (bytes-copy b))) (equal? (list->bytes (bytes->list b)) b))")
+            else:
+                em("b")
     else:
         lines.append("(define s \"%s\")" % r.choice(["", "a", "hello", "xyz"]))
         for _ in range(n):
